@@ -150,6 +150,7 @@ struct HFSM2_EMPTY_BASES O_
 
 	HFSM2_CONSTEXPR(14)	void		deepRequest			 (	   Control& control, const Request request)			noexcept;
 
+	HFSM2_CONSTEXPR(14)	void		 requestAllProngs	  (	 Control& control)								noexcept;
 	HFSM2_CONSTEXPR(14)	void		deepRequestChange	 (	   Control& control, const Request request)			noexcept;
 	HFSM2_CONSTEXPR(14)	void		deepRequestRestart	 (	   Control& control, const Request request)			noexcept;
 	HFSM2_CONSTEXPR(14)	void		deepRequestResume	 (	   Control& control, const Request request)			noexcept;
